@@ -20,7 +20,8 @@ PROPERTY = 'C01'
 LEVEL = 'model_checking'
 RULE = ('(a) product of forests x channels x handler sets x fires, each fire judged against the delivery predicate; '
         '(b) BFS over structural histories with canonical-state dedup (forest, dynamic handlers, per-component cache '
-        'contents and dirty flags); non-trivial = a case in which at least one handler is expected to receive the event '
+        'contents and dirty flags), the handler added / removed at run time being a named one (three variants) or one declared '
+        'without names (catch-all on the component channel, global); non-trivial = a case in which at least one handler is expected to receive the event '
         'and at least one handler in the forest is expected NOT to, or (b) a state in which a structural change happened '
         'while some component held a warm cache')
 ASSUMPTIONS = [
@@ -316,6 +317,27 @@ def _dyn2(self, event, *a, **k):
 DYN = ((_dyn, ('h', 'i', 'e')), (_dyn1, ('e',)), (_dyn2, ('e', 'g')))
 
 
+def _dyn3(self, event, *a, **k):
+    _log(self, event, 'dyn')
+
+
+def _dyn4(self, event, *a, **k):
+    _log(self, event, 'dyn')
+
+
+# the same for handlers declared without names: a catch-all on the component's channel, a global one (channel '*')
+DYN_NAMELESS = ((_dyn3, (), {}), (_dyn4, (), {'channel': '*'}))
+
+
+def dyn_handler(variant, i):
+    """-> (decorated function, names or None for 'every name') of the run-time handler of component i"""
+    if variant == 'nameless':
+        fn, names, kw = DYN_NAMELESS[i % 2]
+        return handler(*names, **kw)(fn), None
+    fn, names = DYN[i % 3]
+    return handler(*names)(fn), names
+
+
 class Ghost:
     def __init__(self, n):
         self.parent = [None] * n
@@ -364,9 +386,10 @@ class World:
 
 
 class HistModel(e1_history.Model):
-    def __init__(self, n, fireq=False):
+    def __init__(self, n, fireq=False, variant='named'):
         self.n = n
         self.fireq = fireq     # also explore "fire without flush" (at most one per history)
+        self.variant = variant  # which kind of handler is added / removed at run time: 'named' | 'nameless'
 
     def ghost(self, hist):
         g = Ghost(self.n)
@@ -466,8 +489,7 @@ class HistModel(e1_history.Model):
             drain(r)
             drain(x)
         elif k == 'add':
-            fn, names = DYN[op[1] % 3]
-            w.dynh[op[1]] = comps[op[1]].addHandler(handler(*names)(fn))
+            w.dynh[op[1]] = comps[op[1]].addHandler(dyn_handler(self.variant, op[1])[0])
         elif k == 'rem':
             comps[op[1]].removeHandler(w.dynh[op[1]])
             w.dynh[op[1]] = None
@@ -502,7 +524,7 @@ class HistModel(e1_history.Model):
                     done.add(i)
         for i in range(self.n):
             if ghost.dyn[i]:
-                comps[i].addHandler(handler(*DYN[i % 3][1])(DYN[i % 3][0]))
+                comps[i].addHandler(dyn_handler(self.variant, i)[0])
         for r in {c.root for c in comps}:
             drain(r)
         return comps
@@ -530,22 +552,22 @@ class HistModel(e1_history.Model):
                 kind = 'history:' + ('missing' if missing else 'extra-or-duplicate')
                 st.fail(kind, 'after %r a fire on root c%d delivered %r, expected %r (forest %r, dynamic %r)'
                         % (list(hist), r, got, exp, g.parent, g.dyn),
-                        {'part': 'history', 'n': self.n, 'hist': [list(o) for o in hist], 'probe': r})
+                        {'part': 'history', 'n': self.n, 'variant': self.variant, 'hist': [list(o) for o in hist], 'probe': r})
             # an event named 'g' reaches the fixed handlers and those run-time handlers that are declared for it
             clone = self.build(hist)
             got_g, _ = fire_probe(clone.comps, r, 'g', None, 2)
-            exp_g = [x for x in exp if x[1] == 'fixed' or 'g' in DYN[x[0] % 3][1]]
+            exp_g = [x for x in exp if x[1] == 'fixed' or dyn_handler(self.variant, x[0])[1] is None or 'g' in dyn_handler(self.variant, x[0])[1]]
             st.executions += 1
             if got_g != exp_g:
                 st.fail('history:other-name:' + ('missing' if [x for x in exp_g if x not in got_g] else 'extra-or-duplicate'),
                         'after %r an event named g fired on root c%d was delivered to %r, expected %r' % (list(hist), r, got_g, exp_g),
-                        {'part': 'history', 'n': self.n, 'hist': [list(o) for o in hist], 'probe': r})
+                        {'part': 'history', 'n': self.n, 'variant': self.variant, 'hist': [list(o) for o in hist], 'probe': r})
             coldc = self.cold(g)
             got2, _ = fire_probe(coldc, r, 'e', None, 1)
             if got2 != got and got == exp:
                 st.fail('history:cold-differs', 'cold build of forest %r/%r delivered %r, history %r delivered %r'
                         % (g.parent, g.dyn, got2, list(hist), got),
-                        {'part': 'history', 'n': self.n, 'hist': [list(o) for o in hist], 'probe': r})
+                        {'part': 'history', 'n': self.n, 'variant': self.variant, 'hist': [list(o) for o in hist], 'probe': r})
         if len(hist) in (3, 5) and len(st.samples) < 3:
             st.sample({'part': 'history', 'hist': [list(o) for o in hist], 'forest': list(g.parent), 'dyn': list(g.dyn)})
 
@@ -608,11 +630,13 @@ def run(tier, seed, workers):
     st = core.parallel(_work_product, (tier, seed), workers, nparts=workers * 4)
     st.bounds['product_forests'] = sum(1 for _ in product_cases(tier))
     st.bounds['product_fires'] = st.executions
-    plan = [(3, 6, False), (3, 4, True)] if tier == 'quick' else [(3, 8, False), (3, 7, True), (4, 5, True)]
+    plan = [(3, 6, False, 'named'), (3, 4, True, 'named'), (3, 5, False, 'nameless')] if tier == 'quick' else [
+        (3, 8, False, 'named'), (3, 7, True, 'named'), (4, 5, True, 'named'), (3, 7, False, 'nameless'), (3, 5, True, 'nameless')]
     states = transitions = 0
-    for n, depth, fq in plan:
-        hs = e1_history.bfs(HistModel(n, fq), depth, workers, seed, max_states=400000)
-        hs.bounds = {'history_pool%d%s_%s' % (n, '_with_unflushed_fire' if fq else '', k): v for k, v in hs.bounds.items()}
+    for n, depth, fq, variant in plan:
+        hs = e1_history.bfs(HistModel(n, fq, variant), depth, workers, seed, max_states=400000)
+        hs.bounds = {'history_pool%d%s%s_%s' % (n, '_with_unflushed_fire' if fq else '', '_nameless' if variant == 'nameless' else '', k): v
+                     for k, v in hs.bounds.items()}
         states += hs.states
         transitions += hs.transitions
         st.merge(hs)
@@ -636,7 +660,7 @@ def replay(w):
         eff = target if target is not None else chans[w['firer']]
         exp = expected(forest, chans, menu, w['firer'], w['name'], eff)
         return got == exp, 'case %r\ndelivered %r\nexpected  %r' % (w, got, exp)
-    model = HistModel(w['n'], True)
+    model = HistModel(w['n'], True, w.get('variant', 'named'))
     hist = tuple(tuple(o) for o in w['hist'])
     world = model.build(hist)
     got, _ = fire_probe(world.comps, w['probe'], 'e', None, 1)
